@@ -360,7 +360,13 @@ class SymBytesIO:
             out.append(l)
 
     def __iter__(self):
-        return iter(self.readlines())
+        return self
+
+    def __next__(self):
+        l = self.readline()
+        if not len(l):
+            raise StopIteration
+        return l
 
     def write(self, data):
         if self._pos != len(self._buf):
